@@ -26,7 +26,7 @@ CLAIMS['C18'] = dict(level='proof', technique='exact finite decision over litera
     ref='§4 C18')
 
 CLAIMS['C03'] = dict(level='other', technique='MIR event pairing (dominance / post-dominance on Ok paths) of content-list edits with parent-link edits, canonical deleted state, must-pass-through of liveness funnels over a call-graph fixpoint, closed-world who-may-write ledger',
-    text='Decides structural necessary conditions of the tree property on every path of every body: both directions of the parent/child relation are edited together, the deleted state is canonical (parent None, no content, no local membership), each of the 23 place-dependent public methods passes a propagated liveness funnel on every path to an Ok exit and the funnels reject deleted elements, and the set of functions that write the relation is closed. Three genuine defects found by these rules were repaired (fix: commits). Does not decide iterator/tree agreement or positions.',
+    text='Decides structural necessary conditions of the tree property on every path of every body: both directions of the parent/child relation are edited together, the deleted state is canonical (parent None, no content, no local membership), each of the 23 place-dependent public methods passes a propagated liveness funnel on every path to an Ok exit and the funnels reject deleted elements, and the set of functions that write the relation is closed. Three genuine defects found by these rules were repaired (fix: commits). Also: position() counts over the content list that the position-taking functions index, the tree iterators end a level only at the item count, and the file-scoped iterator returns an element only behind its own membership test. Does not decide iterator/tree agreement for all histories.',
     note='Identity of the inserted element and the element whose parent is set is approximated by co-occurrence in one function plus dominance; reviewed exemptions (text-only edits, sort) are listed with reasons in rules/c03.py and re-verified where a premise is checkable.',
     ref='§4 C03')
 CLAIMS['C04'] = dict(level='other', technique='MIR event pairing of structural edits and SHORT-NAME writes with path-index maintenance (dominance / all-Ok-paths), must-pass-through of the uniqueness lookup with its Some edge blocked, deviance rule for prefix re-keying, parameter-provenance rule for the two models of a cross-model move',
@@ -44,7 +44,7 @@ CLAIMS['C06'] = dict(level='other', technique='ordered must-pass-through obligat
     ref='§4 C06')
 
 CLAIMS['C15'] = dict(level='other', technique='static lock-order analysis: guard-liveness forward dataflow on drop-elaborated MIR, lock-owner provenance (self/parameter/child/parent/root/lookup/fresh), acquisition summaries to a fixpoint over the resolved call graph incl. closures, verdict per (held, acquired) pair against the documented order',
-    text='Decides whether every blocking acquisition in the crate respects the one partial order Element(ancestor) < Element(descendant) < Model < File; if all do, no set of threads can form a wait cycle under ANY interleaving. On the pinned tree 39 order-violating edges remain (known findings, one per edge key; three verdict classes reproduced as real deadlocks of two OS threads); 12 were removed by a fix: commit. Any new violating edge (e.g. a try-lock turned blocking, a guard held across a call that locks upward) is a VIOLATION.',
+    text='Decides whether every blocking acquisition in the crate respects the one partial order Element(ancestor) < Element(descendant) < Model < File; if all do, no set of threads can form a wait cycle under ANY interleaving. On the pinned tree 39 order-violating edges remain (known findings, one per edge key; three verdict classes reproduced as real deadlocks of two OS threads); 12 were removed by a fix: commit. Any new violating edge (e.g. a try-lock turned blocking, a guard held across a call that locks upward) is a VIOLATION. While inverted edges exist, the functions that await the model lock with an element lock held are a closed set (tables/c15_up_edges.json): a new one closes new wait cycles with the known inversions and is reported (C15-CYCLE).',
     note='Sound for "no wait cycle" up to the provenance abstraction, which only ever adds edges; trait-object calls (dyn Debug) are not followed; three edges on objects not yet shared are reviewed exceptions (tables/c15_reviewed.json) with a checked premise. Does not decide starvation under the 10 ms timeouts.',
     ref='§4 C15')
 
@@ -97,12 +97,12 @@ CLAIMS['C01'] = dict(level='other', technique='sibling table agreement: the writ
     ref='§4 C01')
 
 CLAIMS['C20'] = dict(level='other', technique='sibling table agreement on syntax trees (prefix -> radix chains of parse_integer / parse_float, boolean table) plus MIR-resolved formatter/parser pairs per value kind',
-    text='Decides ONLY the structural clauses: parse_integer and parse_float use the AUTOSAR prefix table (0x/0X->16, 0b/0B->2, leading 0->8, default decimal), the same table in both, with the literal "0" and the two-character prefixes tested before the octal arm; parse_bool maps true|1 and false|0 and nothing else; each value kind is formatted by the std routine whose inverse the value parser (API and loader) uses. Does NOT decide exactness, correct rounding, overflow handling or the statement for all texts: those are run-time properties of std parsers (u64::from_str_radix, f64::from_str, `as f64`) that no static argument in reach bounds.',
+    text='Decides ONLY the structural clauses: parse_integer and parse_float use the AUTOSAR prefix table (0x/0X->16, 0b/0B->2, leading 0->8, default decimal), the same table in both, with the literal "0" and the two-character prefixes tested before the octal arm; parse_bool maps true|1 and false|0 and nothing else; each value kind is formatted by the std routine whose inverse the value parser (API and loader) uses; the text written for a String value is read back to the same value (escape tables of writer and loader inverse and complete, shared with C01). Does NOT decide exactness, correct rounding, overflow handling or the statement for all texts: those are run-time properties of std parsers (u64::from_str_radix, f64::from_str, `as f64`) that no static argument in reach bounds.',
     note='Narrow necessary conditions of a property that is otherwise not applicable to static analysis; stated as such.',
     ref='§5 / §11.7 C20')
 
 CLAIMS['C16'] = dict(level='other', technique='flow analysis on MIR: call-graph fixpoint for "may return ParentElementLocked" (variant built, or Result of such a callee propagated by ?), intersected with the (mutation, Err exit) pairs of the validate-before-mutate analysis',
-    text='Decides ONLY the exception clause of the property: an operation that fails with the documented parent-locked error has had no effect, i.e. in no public-reachable function does a CFG path lead from a mutation of model state to an exit that can carry ParentElementLocked. Serializability of concurrent interleavings (results and final state equal to some sequential order) is NOT decided: it quantifies over schedules and compares with sequential runs, and the only static route (two-phase / reduction analysis) rejects essentially every public operation of the present design.',
+    text='Decides ONLY the exception clause of the property: an operation that fails with the documented parent-locked error has had no effect, i.e. in no public-reachable function does a CFG path lead from a mutation of model state to an exit that can carry ParentElementLocked. Plus one atomicity clause: get_or_create_sub_element / get_or_create_named_sub_element look for the existing sub element and create it under ONE write guard (C16-MUST-atomic). Serializability of concurrent interleavings (results and final state equal to some sequential order) is NOT decided: it quantifies over schedules and compares with sequential runs, and the only static route (two-phase / reduction analysis) rejects essentially every public operation of the present design.',
     note='Narrow clause of a property that is otherwise not applicable; one defect found by it was repaired (SHORT-NAME edit), one is a known finding.',
     ref='§5 / §11.8 C16')
 
